@@ -6,6 +6,16 @@ HERE = os.path.dirname(os.path.dirname(os.path.abspath(__file__)))
 sys.path.insert(0, HERE)
 
 CLAIMED = {
+ 'C06': dict(
+    level='other', ref='DESIGN.md 4 C06',
+    technique='ast typestate invariant over all sub-tape handlers (return-flag scoping), alias/copy classification of EVAL sub-tape fields, cross-table agreement query (VM table vs docs.md vs language_spec.md vs compiler/decompiler case labels)',
+    text='Decides the clauses of C06 whose truth is in the shape of the code: RETURN scoping as an inductive invariant over every handler that runs a sub-tape (IF/IF_ELSE/TRY_EXCEPT transparent, CALL consumes, EVAL consumes unless eval_return, nothing may raise while the flag is pending), EVAL isolation (definitions and flags are copies), and agreement of the five opcode tables. Per-op operand orders, numeric results and boundary behaviour quantify over runtime values and are not decided.',
+    note='Trusted: CPython ast, tsa analyser. Assumes handlers are reached only via run_tape dispatch or the handler->handler calls in the call graph.'),
+ 'C09': dict(
+    level='other', ref='DESIGN.md 4 C09',
+    technique='ast who-flows-where analysis over every Tape(...) construction and run_tape call site, abstract evaluation of set_tape_flags under aliasing, path-count dataflow for plugin runs, who-may-write rule for flags, guard dominance',
+    text='For every sub-tape construction site and run_tape call site in the VM the check proves that contracts, plugins, call limits and the flag map of the parent govern the nested execution (including an abstract evaluation of set_tape_flags under the alias relation between sub-tape flags, additional_flags and the parent map), that signature-extension plugins run exactly once and first in each signature-related handler, that only the flag instructions write flags, and that evaluation of stack data sits behind the disallow guard. Complete for these configuration kinds over all nesting contexts because every context is one of the enumerated sites.',
+    note='Trusted: CPython ast, tsa analyser. Flag keys assumed str/int. Known finding: SET_FLAG/UNSET_FLAG use bytes keys (listed in known_findings.json).'),
  'C01': dict(
     level='other', ref='DESIGN.md 4 C01',
     technique='ast typestate + dominator analysis (return-flag state machine over the CFG of run_auth_scripts/run_tape; try/except coverage; guard dominance)',
